@@ -19,7 +19,9 @@ evidence and a note; set STRICT_INFLIGHT to report it as a violation.
 Several callers answered with PHONE_MIGRATE_X at once (spec kind=multi, harness migrate_multi.go): every caller must come
 back with its OWN answer from a data centre it was sent to, the caller answered normally in between gets its pong, nobody
 dies, panics, hangs or gets an error, a later request completes; for equal X the request of each caller arrives exactly
-once at the data centre of X and nowhere else.
+once at the data centre of X and nowhere else.  Finally the projected outcome (which data centre received whose request how
+often, who answered whom, connections per data centre, final address) must be one of the outcomes the Coq protocol model
+Misc/Migrate.v can end in (all interleavings explored by the extracted step function; theorems C17_concurrent_migrate_*).
 
 Confirm before report: the verdicts of this half depend on a live TCP client under load.  Every failing scenario is run
 again alone with 4x the watchdog and 4x the settle pauses (racing scenarios up to 3 times); it is reported only if the
@@ -92,7 +94,7 @@ def rerun(ctx, hb, work, sid, s):
     return r2
 
 
-def judge_multi(ctx, sid, s, sp, st, count):
+def judge_multi(ctx, sid, s, sp, st, count, model):
     o = s["obs"]
     xs = sp["xs"].split("+")
     short = "multi/PHONE_MIGRATE_%s/normal%s/seq-%s/%s" % ("+".join(xs), sp["normal"], sp["seq"], sp["sched"])
@@ -149,8 +151,30 @@ def judge_multi(ctx, sid, s, sp, st, count):
     if o.get("later-request") != "pong" or o.get("later-request-went-to") != o.get("addr-after"):
         return bad("multi-later-request", "a later request: %s via %s" % (o.get("later-request"), o.get("later-request-went-to")),
                    "completes at the data centre the client is at (%s)" % o.get("addr-after"), "%s via %s" % (o.get("later-request"), o.get("later-request-went-to")))
+    # the outcome must be one the protocol model (Misc/Migrate.v, proved properties) can end in: explored exhaustively by the
+    # extracted step function from the state in which every caller has written its request to A and waits
+    mo = model.get("r" + sp["xs"])
+    if not mo or len(mo) < 2:
+        return bad("multi-model-missing", "the protocol model gave no outcomes for %s" % sp["xs"], "a set of outcomes", str(mo))
+    proj = []
+    for i in range(len(xs)):
+        reps = dict(kv.split(":") for kv in o.get("caller-%d-repeats" % i, "").split(","))
+        proj.append("c%d=A%sB%sC%s>%s" % (i, reps.get("A"), reps.get("B"), reps.get("C"), o.get("caller-%d" % i, "?").rsplit("-", 1)[-1]))
+    nc = dict(kv.split(":") for kv in o.get("new-conns", "").split(","))
+    proj.append("conns=A%sB%sC%s" % (nc.get("A"), nc.get("B"), nc.get("C")))
+    proj.append("addr=%s" % o.get("addr-after"))
+    proj = ";".join(proj)
+    allowed_outcomes = mo[1].split("|")
+    if count and st is not None:
+        st["multi"]["outcomes_checked_against_protocol_model"] = st["multi"].get("outcomes_checked_against_protocol_model", 0) + 1
+        st["multi"].setdefault("protocol_model_states_explored", {})[sp["xs"]] = int(mo[0])
+        st["multi"].setdefault("distinct_observed_outcomes", set()).add(sp["xs"] + ":" + proj)
+    if proj not in allowed_outcomes:
+        return bad("multi-model", "the observed outcome %s is none of the %d outcomes the protocol model can reach" % (proj, len(allowed_outcomes)),
+                   "one of: " + " | ".join(allowed_outcomes[:12]) + (" ..." if len(allowed_outcomes) > 12 else ""), proj)
     if count and st is not None and len(st["samples"]) < 9 and int(sid) % 4 == 1:
-        st["samples"].append({"scenario": short, "callers": [o.get("caller-%d" % i) for i in range(len(xs))], "new_connections": o.get("new-conns")})
+        st["samples"].append({"scenario": short, "callers": [o.get("caller-%d" % i) for i in range(len(xs))], "new_connections": o.get("new-conns"),
+                              "projection": proj})
     return None
 
 
@@ -158,7 +182,7 @@ def judge(ctx, sid, s, model, st, count):
     """verdict of one scenario: None, or {what, short, msg, expected, got, rep}; statistics go to st when count is set"""
     sp = spec_fields(s["spec"])
     if sp.get("kind") == "multi":
-        return judge_multi(ctx, sid, s, sp, st, count)
+        return judge_multi(ctx, sid, s, sp, st, count, model)
     if st is None:
         st = {"classes": {}, "sched": {}, "infl": {"scenarios": 0, "calls": 0, "finished_unaided": 0, "finished_after_old_ids_answered": 0,
                                                     "repeated_at_new_dc": 0}, "deaths": 0, "samples": [], "abandoned": [], "multi": {}}
@@ -300,10 +324,17 @@ def stage(ctx):
     # model run on the client's own DC table
     C.build_model("C17")
     mc = work + "/model_cases.txt"
+    multi_xs = set()
     with open(mc, "w", errors="surrogateescape") as f:
         for l in table_lines(ctx, work):
             f.write(l + "\n")
         for sid, s in sorted(scen.items(), key=lambda kv: int(kv[0])):
+            sp0 = spec_fields(s["spec"])
+            if sp0.get("kind") == "multi":
+                if sp0["xs"] not in multi_xs:
+                    multi_xs.add(sp0["xs"])
+                    f.write("R\tr%s\t%s\n" % (sp0["xs"], sp0["xs"]))   # all outcomes of the protocol model (Misc/Migrate.v)
+                continue
             f.write("M\tm%s\t%s\t%s\t%s\n" % (sid, s["dcs"], s["code"], s["text"]))
             f.write("E\te%s\t%s\t%s\n" % (sid, s["code"], s["text"]))
     mo = work + "/model_out.txt"
@@ -354,6 +385,8 @@ def stage(ctx):
         if confirmed.get("no_failing_input"):
             rep["no_failing_input"] = True
         C.violation(ctx, "migrate-live:%s:%s" % (confirmed["what"], confirmed["short"]), confirmed["msg"], rep)
+    if isinstance(st["multi"].get("distinct_observed_outcomes"), set):
+        st["multi"]["distinct_observed_outcomes"] = len(st["multi"]["distinct_observed_outcomes"])
     classes, sched, infl, deaths, samples, abandoned = st["classes"], st["sched"], st["infl"], st["deaths"], st["samples"], st["abandoned"]
 
     if abandoned:
